@@ -1037,9 +1037,13 @@ class Phi(LocalValue):
             raise ValueError(
                 f"Type mismatch {value.ty} where {self.ty} was expected"
             )
-        if block in self.inputs:
-            self.del_use(self.inputs[block])
+        old_value = self.inputs.get(block)
         self.inputs[block] = value
+        # Only release the old value when no other branch still uses it:
+        if old_value is not None and all(
+            v is not old_value for v in self.inputs.values()
+        ):
+            self.del_use(old_value)
         self.add_use(value)
 
     def get_value(self, block):
@@ -1049,7 +1053,9 @@ class Phi(LocalValue):
     def del_incoming(self, block):
         """Remove incoming branch from this phi node and delete the usage"""
         value = self.inputs.pop(block)
-        self.del_use(value)
+        # Only release the value when no other branch still uses it:
+        if all(v is not value for v in self.inputs.values()):
+            self.del_use(value)
 
 
 class Alloc(LocalValue):
